@@ -208,6 +208,7 @@ theorem step_shadow {s : VariableSet} (h : Norm s) (hS : ShadowInv s) (op : Op) 
     cases hm : s.unset n sc with
     | mk s1 r1 => rw [hm] at this; cases r1 <;> exact this
   | setParams ps => exact (setParams_ro hS ps).2
+  | quirk n sc q => exact (stepM_ro h hS n sc _ (frozen_setQuirk q) (fun _ => .done)).2
 
 theorem step_keeps {s : VariableSet} (h : Norm s) (hS : ShadowInv s) (op : Op) (hop : op ≠ .pop) :
     KeepsAll s (s.step op).1 := by
@@ -228,6 +229,7 @@ theorem step_keeps {s : VariableSet} (h : Norm s) (hS : ShadowInv s) (op : Op) (
     cases hm : s.unset n sc with
     | mk s1 r1 => rw [hm] at this; cases r1 <;> exact this
   | setParams ps => exact (setParams_ro hS ps).1
+  | quirk n sc q => exact (stepM_ro h hS n sc _ (frozen_setQuirk q) (fun _ => .done)).1
 
 theorem run_shadow {s : VariableSet} (h : Norm s) (hS : ShadowInv s) (ops : List Op) :
     Norm (s.run ops) ∧ ShadowInv (s.run ops) := by
